@@ -5,15 +5,21 @@
 (*   id, NG, utol (user tolerance as an integer id), ev[], and the final   *)
 (*   fixed-point errors with their bounds.                                 *)
 (* Translations are logged as small integer ids (identical float triples   *)
-(* get the same id), grains as 1..NG.  Events (harness wrappers around     *)
+(* get the same id whatever python / numpy type holds them: a start grain  *)
+(* built in memory from integers, float32 or a tuple is the same start as   *)
+(* the one read from a file), grains as 1..NG.  Events (harness wrappers around     *)
 (* the real methods, no source hooks):                                     *)
 (*   settrans  g, gt (translation held by grain g), pt (parameter object   *)
 (*             after the call)                                             *)
 (*   kernelgv  t  : cImageD11.compute_gv called with translation t          *)
 (*   assign    label, reset (labels all -1 and errors all initial before),  *)
-(*             tol ; and for the NT tracked peaks of the run (every peak    *)
+(*             tol, n (rows of the g-vector / label / error arrays handed   *)
+(*             to the kernel: must be nrows, the rows of the peak file) ;   *)
+(*             and for the NT tracked peaks of the run (every peak          *)
 (*             inside the tolerance of two grains, capped, plus a sample of *)
-(*             uncontested peaks and strays):                               *)
+(*             uncontested peaks and strays, plus - peak files longer than  *)
+(*             4096 rows - the first and last row and the rows on both      *)
+(*             sides of every multiple of 4096, RefineFlow!BLOCK):          *)
 (*             rk[k]  rank of THIS grain's error on peak k among the errors *)
 (*                    of all grains of the pass that are inside the         *)
 (*                    tolerance (0 = smallest), 99 = outside, -1 = the peak *)
@@ -131,6 +137,7 @@ AssignWhy ==
    ELSE IF Ev.label # cur THEN "score_and_assign label is not the grain whose g-vectors were just computed"
    ELSE IF Ev.label \in presented THEN "a grain was presented twice in one assignment pass"
    ELSE IF Ev.tol # utol THEN "assignment did not use the user's tolerance"
+   ELSE IF Ev.n # Rec.nrows THEN "score_and_assign was not handed every row of the peak file"
    ELSE IF \E k \in Tracked : Judged(k) /\ Ev.lab[k] # OwnAfter[k] /\ Ev.lab[k] = Ev.label
         THEN "score_and_assign gave a peak to a grain that does not fit it better than its owner (or not within the tolerance)"
    ELSE IF \E k \in Tracked : Judged(k) /\ Ev.lab[k] # OwnAfter[k]
